@@ -23,7 +23,8 @@ import core
 THEOREMS = ["C14_timeseries", "C14_multitower", "C14_multitower_duplicates", "C14_pool_map_any_order",
             "C14_parallel_eq_serial", "C14_both_reassembly", "C14_shared_cache_safe", "C14_worker_runs_serial_kernel"]
 TRUSTED = [
-    "Model/Drivers.v is hand-written; tied to interface.run_bldfm_timeseries/multitower/parallel by exact differential execution (structure + bit-equality with run_bldfm_single) and by replaying the OBSERVED completion orders through the model",
+    "Model/Drivers.v is hand-written; tied to interface.run_bldfm_timeseries/multitower/parallel (B) by harness/py2coq_drivers.py: the CURRENT source of run_bldfm_timeseries, run_bldfm_multitower, _worker_single, _worker_timeseries and the three branches of run_bldfm_parallel is translated statement by statement (fail closed outside the fragment: for/append, dict item assignment keyed by tower.name, comprehensions, range/len/enumerate, slices, pool.map, the strategy dispatch) into GenDrivers.v and Bridge/DriversBridge.v re-proves gen = model for all configurations, towers lists, step counts, worker counts and valid schedules on every run; and (A) by exact differential execution (structure + bit-equality with run_bldfm_single) and by replaying the OBSERVED completion orders through the model",
+    "harness/py2coq_drivers.py (driver translator): the AST walk, its kind checker, the reading of `xs.append(e)` as snoc, of `d[k] = v` on a dict built in the function as the model's dict_set, of `for` as a left fold over the re-bound variables, of x[a:b] on non-negative indices as firstn (b - a) (skipn a x), and of list(pool.map(f, tasks)) as map f tasks (submission order); what it ignores for the value: docstrings, logger calls with side-effect-free arguments, `cache = _make_cache(config)` handed to run_bldfm_single as cache= only, and the four state-reset statements of the workers (whose presence and order it requires)",
     "concurrent.futures.ProcessPoolExecutor.map yields results in submission order (documented; modelled as pool_map, proved order-independent in the model, exercised with delayed workers on the real pool)",
     "Python dict semantics (insertion order, overwrite keeps position) as modelled by dict_set",
     "real OS scheduling is only exercised (random and adversarial per-task delays), not enumerated",
@@ -32,6 +33,7 @@ TRUSTED = [
 ]
 ASSUMPTIONS = [
     "run_bldfm_single is a pure function of (configuration, tower, time index): the same in the parent and in a forked worker with threads reset (C12), and with a cache object present (C15 transparency); both are additionally MEASURED here by bit-comparison",
+    "bridge (B): run_bldfm_single(config, tower, met_index=i[, surface_flux=<the caller's argument, handed on unchanged>][, cache=_make_cache(config)]) is the abstract w_single config tower i; the serial drivers hand surface_flux on, the parallel driver documents that it does not, so gen_parallel_<s> = gen_multitower speaks about surface_flux=None (or about w_single of the workers); config.towers, config.met.n_timesteps, config.parallel.max_workers and tower.name are plain attribute reads without side effects",
     "tower names are unique where the property speaks of 'keyed by tower name' (C14_multitower); the equality parallel = serial is proved without it",
     "every submitted task completes exactly once (valid_sched: the completion events are a permutation of the submissions)",
     "process start method fork (the default of ProcessPoolExecutor on Linux with Python 3.12)",
@@ -721,6 +723,9 @@ def sched_of(gr, rec):
 
 def check(ctx):
     core.check_properties_file(ctx, "Properties/C14.v", THEOREMS, core.AX_NONE)
+    # tie (B): translate the drivers from the current source (fail closed -> gen:GenDrivers.v), re-prove gen = model
+    import py2coq_drivers
+    py2coq_drivers.run(ctx)
     groups = gen_groups(ctx.rng, ctx.thorough)
     by_id = {g["id"]: g for g in groups}
     res = run_jobs(ctx, groups, "impl", nproc=14)
